@@ -68,6 +68,51 @@ def code_points(chk):
     chk.sample({'code_point_ranges': rle[:6]})
 
 
+CONTEXTS = ('{%sx', ' %s', '$%s$', '%s', 'a%s')      # the character right after a brace / a blank / a math switch / at the start / in a text run
+BOUNDARY = [0x09, 0x0b, 0x0c, 0x1c, 0x1f, 0x80, 0x85, 0xa0, 0xad, 0xff, 0x100, 0x200b, 0x2028, 0x2029, 0x3000, 0xd7ff, 0xd800, 0xdfff, 0xe000,
+            0xfeff, 0xfffd, 0xffff, 0x10000, 0xe0001, 0x10ffff]
+
+
+def _plain(s):
+    return s.replace('\x00', '').replace('\x7f', '')
+
+
+def _covers(text):
+    """cheap pre-filter (the verdict is TLC's): do the real tokens reproduce the text apart from NUL / DEL?"""
+    from TexSoup.tokens import tokenize
+    from TexSoup.category import categorize
+    try:
+        toks = list(tokenize(categorize(text)))
+    except Exception:   # noqa
+        return False
+    return _plain(''.join(str(t) for t in toks)) == _plain(text) and all(len(str(t)) > 0 for t in toks)
+
+
+def _scan_job(ab):
+    """every code point of a block at token boundaries; returns the code points that need a closer look"""
+    a, b = ab
+    sus = []
+    for ctx in CONTEXTS:
+        if _covers('\n'.join(ctx % chr(c) for c in range(a, b + 1))):
+            continue
+        for c in range(a, b + 1):
+            if not _covers(ctx % chr(c)):
+                sus.append([c, ctx])
+    return sus
+
+
+def boundary_sources(chk):
+    """sources that put single code points at token boundaries: a fixed list of boundary code points in every context, plus
+    every code point for which the pre-filter over ALL code points saw tokens that do not reproduce the text"""
+    blocks = [(a, min(a + 4095, 0x10FFFF)) for a in range(0, 0x110000, 4096)]
+    sus = [x for part in obs.pmap(_scan_job, blocks, chunk=4, force=True) for x in part]
+    chk.count('code_points_scanned_at_token_boundaries', 0x110000 * len(CONTEXTS))
+    chk.count('code_points_flagged_by_the_scan', len(sus))
+    out = [ctx % chr(c) for c in BOUNDARY for ctx in CONTEXTS]
+    out += [ctx % chr(c) for c, ctx in sus[:400]]
+    return out
+
+
 def _tok_cmp(rec):
     src = from_atoms(rec['i'])
     T = obs.tokens_once(src)
@@ -117,6 +162,7 @@ def run(chk):
     docs = S.corpus_sources()
     extra = list(docs) + S.random_strings(rng, chars + ['\\left(', '\\big', 'ab', '\\\\'], 200 if quick else 20000, 5, 40)
     extra += S.regression_inputs(('C19', 'C06'))
+    extra += boundary_sources(chk)
     exps = []
     for s in dict.fromkeys(extra):
         T = obs.tokens_once(s)
